@@ -663,6 +663,14 @@ where
         }
     }
     
+    /// Get the keys currently stored, in no particular order (does not change the recency order)
+    pub fn keys(&self) -> Vec<K> {
+        match self.hash_map.read() {
+            Ok(hash_map) => hash_map.keys().cloned().collect(),
+            Err(_) => Vec::new(),
+        }
+    }
+
     /// Get the current number of entries
     pub fn len(&self) -> usize {
         self.lru_list.len()
